@@ -73,3 +73,30 @@ Theorem c14_refused_no_effect : forall w i req draws w' rc ex d', (i < length (w
   parse_cmd w i req draws = (w', CStatus rc ex, d') -> rc < 0 -> w' = w /\ d' = draws.
 Proof. exact refused_no_effect. Qed.
 Print Assumptions c14_refused_no_effect.
+
+(* huge arguments: the artificial reply delay (FAKE_TRXC_DELAY <ms>; CTRLInterface.send_response sleeps rsp_delay_ms / 1000 s before EVERY
+   later reply) is the one integer argument that reaches a call with a bounded domain - time.sleep() raises OverflowError above
+   2^63-1 ns.  The sleep is part of the model's handle_rx (a delay that overflows it is the crash outcome RCrashed, so c14_ctrl_total and
+   c14_no_history_crashes above cover it); here the handler's side: every value beyond the last one time.sleep() takes is refused with
+   -1 and changes nothing, every accepted value is stored and can be slept, and 9223372036854 ms is exactly the boundary *)
+Theorem c14_delay_beyond_sleep_refused : forall s a, 9223372036854 < a ->
+  fake_handler s [v_FAKE_TRXC_DELAY; py_str a] = (s, Some (CStatus (-1) [])).
+Proof. exact delay_too_long_refused. Qed.
+Print Assumptions c14_delay_beyond_sleep_refused.
+
+Theorem c14_delay_accepted_sleepable : forall s a, a <= 9223372036854 ->
+  s_delay (fst (fake_handler s [v_FAKE_TRXC_DELAY; py_str a])) = a /\ snd (fake_handler s [v_FAKE_TRXC_DELAY; py_str a]) = None /\ sleep_overflows a = false.
+Proof. exact delay_accepted_sleepable. Qed.
+Print Assumptions c14_delay_accepted_sleepable.
+
+Theorem c14_sleep_boundary : forall ms, sleep_overflows ms = true <-> 9223372036855 <= ms.
+Proof. exact sleep_boundary. Qed.
+Print Assumptions c14_sleep_boundary.
+
+(* on every reachable world the reply to a command is sent, whatever delay earlier commands left behind *)
+Theorem c14_reply_sent_after_delay : forall w' i b, wf_world w' ->
+  match nth_error (w_trx w') i with
+  | Some t' => if sleep_overflows (s_delay (x_sim t')) then RCrashed else RReply b
+  | None => RReply b end = RReply b.
+Proof. exact send_reply. Qed.
+Print Assumptions c14_reply_sent_after_delay.
